@@ -28,13 +28,16 @@ crpix, crpix_frac, crpix_exact (bool: fraction 0 or .5, i.e. all CRPIX arithmeti
 * ``rt/multi_tan/astrometry``         + ``field, observed, expected``
 * ``rt/multi_tan/no_lock_files``      + ``locks``
 
-Bounds: quick: 26 scenarios, canvases up to ~700 px (L <= 2), 1-4 pieces, workers {1,2,3}, fits and
-npy pyramids, both parities (and mixed, CD-style headers), rotations, half-integer and other
-fractional CRPIX, 3 order permutations for two piece sets.  thorough: 120 scenarios, canvases up
-to 1400 px (L <= 3), 1-6 pieces, all orders for three sets of <= 4 pieces, workers {1,2,3,5}.
+Bounds: quick: 26 scenarios (18 random + 2 piece sets x 4 orders), canvases up to ~700 px (L <= 2),
+1-4 pieces (random rectangles incl. 1-3 px slivers, regular grids with 0/3/17 px overlap, NaN
+borders and holes), workers {1,2,3}, fits and npy pyramids, f32/f64 data, both parities (and mixed,
+CD-style headers), rotations {0,30,-77,90,180,12.5} deg, CRPIX integer / half-integer / .25 / .3 /
+.37 fractions.  thorough: 162 scenarios (90 random + all 24 orders of 3 four-piece sets), canvases
+up to 1400 px (L <= 3), 1-6 pieces, workers {1,2,3,5}.
 A collection that the code refuses as "not on uniform WCS grid" (mixed parities with CDELT-style
 headers: the library's own `_is_multi_tan` gate sends those to the multi-WCS path) is counted as a
-trivial case, not as a violation.
+trivial case, not as a violation (the generator only mixes parities with CD-style headers).
+Reports are capped at 5 per (obligation, crpix_exact) family.
 
 Trusted: astropy FITS codec and WCS header parsing, numpy .npy, wwt_data_formats' definition of
 the image-set fields.  Tolerance: pixel values exact; astrometry 1e-9 relative / 1e-9 absolute.
